@@ -58,37 +58,48 @@ Proof.
   destruct tree; injection H as <- <- <-; auto.
 Qed.
 
-Lemma remove_stage_is_na tree keep fx nact ps k other ps' nact' other' fx' :
-  remove_stage flag tree keep fx nact ps k other = (ps', nact', other', fx') ->
+Lemma remove_stage_is_na tree hyb keep fx nact ps k other ps' nact' other' fx' :
+  keep || hyb = keep ->
+  remove_stage flag tree hyb keep fx nact ps k other = (ps', nact', other', fx') ->
   remove_stage_na tree keep fx ps k other = (ps', other', fx').
 Proof.
-  unfold remove_stage, remove_stage_na. intros H.
+  unfold remove_stage, remove_stage_na. intros Hk H. rewrite Hk in H.
   destruct (remove_particle flag tree keep nact ps k) as [[psx nx] b] eqn:E.
   rewrite (remove_particle_is_na _ _ _ _ _ _ _ _ E).
   destruct b; injection H as <- <- <- <-; auto.
 Qed.
 
-Lemma loop_is_na tree keep : forall pend fx nact s ps s' psf naf log,
-  resolve_loop pid flag res tree keep fx nact s ps pend = (s', psf, naf, log) ->
+(* [keep || hyb = keep]: the loop's renumbering rule agrees with the discipline reb_simulation_remove_particle really uses *)
+Lemma loop_k_is_na tree hyb keep : keep || hyb = keep -> forall pend fx nact s ps s' psf naf log,
+  resolve_loop_k pid flag res tree hyb keep fx nact s ps pend = (s', psf, naf, log) ->
   resolve_loop_na tree keep fx s ps pend = (s', psf, log).
 Proof.
-  induction pend as [|e0 rest IH]; intros fx nact s ps s' psf naf log H; cbn [resolve_loop resolve_loop_na] in *.
+  intros Hk. induction pend as [|e0 rest IH]; intros fx nact s ps s' psf naf log H; cbn [resolve_loop_k resolve_loop_na] in *.
   - injection H as <- <- <- <-. reflexivity.
   - destruct (fx e0) as [[p1 p2] g].
     destruct (negb (p1 =? -1) && negb (p2 =? -1)); [|eapply IH; eauto].
     destruct (res s ps (p1, p2, g)) as [[s1 psr] o].
-    destruct (if Z.testbit o 0 then remove_stage flag tree keep fx nact psr p1 p2 else (psr, nact, p2, fx))
+    destruct (if Z.testbit o 0 then remove_stage flag tree hyb keep fx nact psr p1 p2 else (psr, nact, p2, fx))
       as [[[ps1 na1] p2a] fx1] eqn:S1.
     assert (A1 : (if Z.testbit o 0 then remove_stage_na tree keep fx psr p1 p2 else (psr, p2, fx)) = (ps1, p2a, fx1)).
     { destruct (Z.testbit o 0); [eapply remove_stage_is_na; eauto|]. injection S1 as <- <- <- <-. auto. }
     rewrite A1.
-    destruct (if Z.testbit o 1 then remove_stage flag tree keep fx1 na1 ps1 p2a p1 else (ps1, na1, p1, fx1))
+    destruct (if Z.testbit o 1 then remove_stage flag tree hyb keep fx1 na1 ps1 p2a p1 else (ps1, na1, p1, fx1))
       as [[[ps2 na2] p1x] fx2] eqn:S2.
     assert (A2 : (if Z.testbit o 1 then remove_stage_na tree keep fx1 ps1 p2a p1 else (ps1, p1, fx1)) = (ps2, p1x, fx2)).
     { destruct (Z.testbit o 1); [eapply remove_stage_is_na; eauto|]. injection S2 as <- <- <- <-. auto. }
     rewrite A2.
-    destruct (resolve_loop pid flag res tree keep fx2 na2 s1 ps2 rest) as [[[s2 psf2] naf2] log2] eqn:HL.
+    destruct (resolve_loop_k pid flag res tree hyb keep fx2 na2 s1 ps2 rest) as [[[s2 psf2] naf2] log2] eqn:HL.
     rewrite (IH _ _ _ _ _ _ _ _ HL). injection H as <- <- <- <-. reflexivity.
+Qed.
+
+(* the loop as coded (the local variable is forced to 1 for the hybrid integrators): always consistent *)
+Lemma loop_is_na tree hyb keepuser : forall pend fx nact s ps s' psf naf log,
+  resolve_loop pid flag res tree hyb keepuser fx nact s ps pend = (s', psf, naf, log) ->
+  resolve_loop_na tree (keepuser || hyb) fx s ps pend = (s', psf, log).
+Proof.
+  intros. unfold resolve_loop in H. eapply loop_k_is_na; [|exact H].
+  destruct keepuser, hyb; reflexivity.
 Qed.
 
 (* N_active never exceeds N after a successful removal (the clamp of the unsorted branch; the decrement otherwise) *)
